@@ -195,6 +195,14 @@ def assign(mod, base_seed, tier, n_workers):
     return per
 
 
+def _memory_maps():
+    try:
+        with open("/proc/self/maps") as f:
+            return sum(1 for _ in f)
+    except OSError:
+        return 0
+
+
 def release_compiled_programs():
     """Drop compiled XLA programs and our own jit wrappers (thorough tiers walk through
     hundreds of compiled menu entries; keeping them all exhausts memory)."""
@@ -248,8 +256,11 @@ def worker_main(pid, tier, base_seed, wid, n_workers, out_path):
             seed = derive_seed(base_seed, mod.ID, i)
             cfg = mod.gen_cfg(seed, i, tier)
             g = mod.group_of(cfg)
-            if last_group is not None and g != last_group:
-                release_compiled_programs()  # a worker holds the programs of one menu entry at a time
+            if (last_group is not None and g != last_group) or _memory_maps() > 12000:
+                # a worker holds the programs of one menu entry at a time; inside an entry, programs
+                # compiled from per-run closures pile up as memory mappings (LLVM JIT code) - release
+                # them long before the kernel's per-process mapping limit (65530) is reached
+                release_compiled_programs()
             last_group = g
             faulthandler.dump_traceback_later(mod.TIERS[tier].get("run_timeout_s", 600), exit=True)
             try:
